@@ -35,25 +35,39 @@ def suite_failures(src_root, tests_root='/repo'):
 
 def one(patch, props, tier, budget):
     name = os.path.basename(patch)
-    if name == 'patch.diff':
+    if name in ('patch.diff', 'patch.rebased.diff'):
         name = os.path.basename(os.path.dirname(patch))
     scratch = tempfile.mkdtemp(prefix='mut-', dir='/dev/shm')
     try:
         os.makedirs(scratch + '/repo')
         shutil.copytree('/repo/src', scratch + '/repo/src')
-        r = subprocess.run(['patch', '-p1', '-s', '-i', patch],
+        r = subprocess.run(['patch', '-p1', '-s', '--forward', '-i', patch],
                            cwd=scratch + '/repo', capture_output=True,
                            text=True)
+        partial = False
         if r.returncode != 0:
-            return {'mutant': name, 'error': 'patch failed: ' + r.stdout[-200:]}
+            # the repository has moved on since the patch was written (fix:
+            # commits): hunks for one server flavour may no longer apply.
+            # What did apply is still a change worth running, and is marked.
+            for root, _d, files in os.walk(scratch + '/repo/src'):
+                for fn in files:
+                    if fn.endswith(('.rej', '.orig')):
+                        os.remove(os.path.join(root, fn))
+            d = subprocess.run(['diff', '-rq', '/repo/src',
+                                scratch + '/repo/src'], capture_output=True,
+                               text=True)
+            if not d.stdout.strip():
+                return {'mutant': name,
+                        'error': 'patch failed: ' + r.stdout[-200:]}
+            partial = True
         failed, tail = suite_failures(scratch + '/repo/src')
         res = {'mutant': name, 'suite': tail, 'suite_same_as_baseline': None,
-               'checks': {}}
+               'checks': {}, 'partially_applied': partial}
         res['failed'] = failed
         env = dict(os.environ, VERIF_REPO_SRC=scratch + '/repo/src',
                    VERIF_EVIDENCE_DIR=scratch + '/ev',
                    VERIF_REPLAY_DIR=scratch + '/replays',
-                   VERIF_MIN_BUDGET_S='2', VERIF_MAX_REPORT='2',
+                   VERIF_MIN_BUDGET_S='6', VERIF_MAX_REPORT='2',
                    VERIF_WORKERS=os.environ.get('MUT_WORKERS', '4'))
         for p in props:
             c = subprocess.run([VERIF + '/check', p, '--tier', tier],
@@ -74,11 +88,20 @@ def main():
     jobs = []
     for patch in sorted(glob.glob(VERIF + '/mutants/*.patch')) + \
             sorted(glob.glob(VERIF + '/seeded/*/patch.diff')):
+        # (a patch that no longer applies to the repaired tree may have been
+        # re-written against it by hand: same change, current context)
+        reb = os.path.join(os.path.dirname(patch), 'patch.rebased.diff')
+        if patch.endswith('patch.diff') and os.path.exists(reb):
+            patch = reb
         head = open(patch).readline()
         m = re.search(r'(C\d\d)', head)
         meta = os.path.join(os.path.dirname(patch), 'meta.json')
         props = [m.group(1)] if m else []
-        if os.path.exists(meta) and patch.endswith('patch.diff'):
+        if not props:
+            m2 = re.match(r'c(\d\d)_', os.path.basename(patch))
+            if m2:
+                props = ['C' + m2.group(1)]
+        if os.path.exists(meta) and patch.endswith('.diff'):
             props = [json.load(open(meta))['property']]
         if only and not any(o in patch for o in only):
             continue
